@@ -37,9 +37,9 @@ func init() {
 		Assumptions: []string{"bodies up to a few hundred bytes plus one MaxDocSize boundary profile", "keys from a small pool plus hostile keys", "expiries far in the future (timer never fires)", "error messages, log output not compared"},
 		Parts: []sup.Part{
 			exhaustivePart("exhaustive", base),
-			randomPart("random", 200, 3000, rnd),
-			randomPart("hostile-keys", 20, 200, hk),
-			randomPart("maxdocsize", 20, 200, small),
+			randomPart("random", 800, 12000, rnd),
+			randomPart("hostile-keys", 60, 900, hk),
+			randomPart("maxdocsize", 60, 900, small),
 		},
 		Floor: func(tier string, m *sup.Merged) string {
 			if len(m.Cells) < 300 {
